@@ -320,4 +320,65 @@ def wholesymLocationFor (ops : PathOps) : WLoc → String → Option WLoc
     else (ops.parent dbg).map (fun b => .localFile (ops.join b p))                 -- helper.rs:112-117
   | _, _ => none                                                                   -- helper.rs:119-127
 
+/-! ## The two ways to the frames of an address
+
+`/source/v1` uses `SymbolMap::lookup` (`samply-symbols/src/symbol_map.rs:122-182`) on a fresh symbol map;
+`/symbolicate/v5` uses `lookup_sync` and, for frames that live in an external file (dwo, Mach-O object),
+`SymbolMap::lookup_external` (`symbol_map.rs:190-229`) on a symbol map shared by the whole batch, whose inner map
+caches the most recently used external file (`try_lookup_external`). `X` = `ExternalFileAddressRef`,
+`C` = the contents of an auxiliary file. -/
+
+/-- `FramesLookupResult` -/
+inductive FLR (X : Type) where
+  | available (fs : List Frame)
+  | external (x : X)
+
+/-- The inner symbol map and the helper as far as the two loops use them. -/
+structure InnerMap (X C : Type) where
+  /-- `lookup_sync(address)`: `none` = no symbol, `some none` = a symbol without debug info -/
+  lookupSync : Nat → Option (Option (FLR X))
+  /-- `InnerSymbolMap::WithAddFile` (external files can be added) -/
+  withAddFile : Bool
+  /-- `self.helper` is present -/
+  hasHelper : Bool
+  /-- `location_for_external_object_file` / `location_for_dwo` of the debug file's location, then
+  `helper.load_file(location).await.ok()` (symbol_map.rs:146-160 and :211-223): `none` = no location or load error -/
+  loadAux : X → Option C
+  /-- `try_lookup_external_with_file_contents(&external, file_contents)` -/
+  tryWithFile : X → Option C → Option (FLR X)
+  /-- `try_lookup_external(external)` (symbol_map.rs:199): answered from the cached external file -/
+  tryCached : X → Option (FLR X)
+
+/-- The body shared by both `loop`s: as long as the result refers to a further external file, load it and ask
+again. The code's `loop` has no bound; `fuel` bounds the number of external files loaded, `none` = not finished
+within `fuel` loads. `some none` = no debug info. -/
+def resolveExternal {X C : Type} (im : InnerMap X C) : Nat → Option (FLR X) → Option (Option (List Frame))
+  | _, some (.available fs) => some (some fs)
+  | _, none => some none
+  | 0, some (.external _) => none
+  | n + 1, some (.external x) => resolveExternal im n (im.tryWithFile x (im.loadAux x))
+
+/-- `SymbolMap::lookup(address).and_then(|ai| ai.frames)`, symbol_map.rs:122-182 -/
+def lookupFresh {X C : Type} (im : InnerMap X C) (fuel : Nat) (a : Nat) : Option (Option (List Frame)) :=
+  match im.lookupSync a with
+  | none => some none                                       -- :123 `?`
+  | some none => some none                                  -- :132-137
+  | some (some (.available fs)) => some (some fs)           -- :126-131
+  | some (some (.external x)) =>
+    if !im.withAddFile then some none                       -- :132-137
+    else if !im.hasHelper then some none                    -- :142 `?`
+    else resolveExternal im fuel (some (.external x))       -- :143-181
+
+/-- What `/symbolicate/v5` records for an address: `lookup_sync` (symbolicate/mod.rs:97-116), then
+`lookup_external` for external references (symbolicate/mod.rs:124-128, symbol_map.rs:190-229) -/
+def lookupBatch {X C : Type} (im : InnerMap X C) (fuel : Nat) (a : Nat) : Option (Option (List Frame)) :=
+  match im.lookupSync a with
+  | none => some none
+  | some none => some none
+  | some (some (.available fs)) => some (some fs)
+  | some (some (.external x)) =>
+    if !im.hasHelper then some none                         -- symbol_map.rs:194 `?`
+    else if !im.withAddFile then some none                  -- :195-198
+    else resolveExternal im fuel (im.tryCached x)           -- :199-228
+
 end SourceApi
